@@ -159,13 +159,11 @@ pub fn run(ctx: &Ctx) -> Result<Report, String> {
     r.assume("the peer answers the DA1 query as soon as it has received it; TERM=dumb (no capability probing)");
     r.assume("encoding of commands is taken from the library's encoder (C05 judges it); here only transport is judged");
     viol.extend(merged.violations);
+    // the conformance pass samples the real kernel and decides nothing: disagreements are shown
+    // in the evidence and on stderr, they are not verdicts
     if let Some(ps) = conf["problems"].as_array() {
         for p in ps {
-            viol.add(
-                p[0].as_str().unwrap_or("conformance").to_string(),
-                p[1].as_str().unwrap_or("").to_string(),
-                json!({"kind": "conformance"}),
-            );
+            eprintln!("NOTE (conformance, not a verdict): {}", p);
         }
     }
     r.violations = viol.into_vec();
